@@ -117,13 +117,54 @@ def textable(rng, c: dict) -> dict:
     c['fam'] = [f for f in c['fam'] if tuple(f) in TEXT_FAMILIES] or [[1, 1]]
     c['aps'] = [f for f in c['aps'] if tuple(f) in TEXT_FAMILIES]
     c['nhs'] = [t for t in c['nhs'] if tuple(t) in NEXTHOP]
-    c['pl'] = []
+    aps = {tuple(f) for f in c['aps']}
+    c['pl'] = [e for e in c['pl'] if (e[0], e[1]) in aps and 1 <= e[2] <= 65535]
     if c['gr'] is not None:
         c['gr'] = min(c['gr'], 4095)
     if not c['pas']:
         c['pas'] = 65001
     c['_text'] = 1
     return c
+
+
+def extreme_cfgs(rng) -> list[dict]:
+    """The largest values the configuration grammar accepts, alone and all together (text path)."""
+    out = []
+    big = negorig.default_cfg()
+    big.update({
+        'las': 4294967295, 'pas': 4294967295, 'rid': 0xFFFFFFFF, 'hold': 65535, 'fam': [list(f) for f in TEXT_FAMILIES],
+        'asn4': 1, 'nhon': 1, 'nhs': [list(t) for t in NEXTHOP], 'ap': 3, 'aps': [list(f) for f in ADD_PATH],
+        'pl': [[a, s, 65535] for a, s in ADD_PATH], 'gr': 4095, 'rr': 1, 'op': 1, 'em': 1,
+        'host': 'h' * 255, 'dom': 'd' * 255, 'sw': 1, 'll': 1, 'ms': 0, '_text': 1,
+    })  # fmt: skip
+    out.append(big)
+    for k, v in (('host', 'a' * 64), ('host', 'a' * 65), ('host', 'a' * 255), ('dom', 'b' * 255), ('gr', 4095), ('gr', 0),
+                 ('hold', 65535), ('hold', 0), ('las', 4294967295), ('fam', [list(f) for f in TEXT_FAMILIES]), ('ms', 1)):
+        c = negorig.default_cfg()
+        c[k] = v
+        if k == 'dom':
+            c['host'] = 'r1'
+        c['_text'] = 1
+        out.append(c)
+    c = negorig.default_cfg()
+    c.update({'fam': [list(f) for f in ADD_PATH], 'ap': rng.choice([1, 3]), 'aps': [list(f) for f in ADD_PATH], 'pl': [[a, s, rng.choice([1, 65535])] for a, s in ADD_PATH], '_text': 1})
+    out.append(c)
+    # one step beyond each maximum: the parser must refuse (if it accepts, cfgOK / the OPEN decide)
+    for k, v in (('host', 'a' * 256), ('dom', 'b' * 256), ('gr', 4096), ('hold', 65536), ('las', 4294967296), ('rid', 1 << 32), ('pl', [[1, 1, 65536]]), ('pl', [[1, 1, 0]])):
+        c = negorig.default_cfg()
+        c.update({'ap': 3, 'aps': [[1, 1]], 'host': 'r1'})
+        c[k] = v
+        c['_text'] = c['_text_only'] = 1
+        c['_beyond'] = 1
+        out.append(c)
+    # the same through NeighborSettings, all 23 families
+    c = dict(big)
+    c.pop('_text')
+    c['fam'] = [list(f) for f in FAMILIES]
+    c['gr'] = 65535
+    c['host'], c['dom'] = 'h' * 64, 'd' * 64
+    out.append(c)
+    return out
 
 
 def hexs(b: bytes) -> str:
@@ -341,7 +382,9 @@ def expected_capset(c: dict) -> dict:
         'ap': sorted(f'{a}.{s}:{c["ap"]}' for a, s in aps) if c['ap'] else None,
         'nh': sorted(f'{a}.{s}.{h}' for a, s, h in NEXTHOP if [a, s, h] in c['nhs']) if c['nhon'] else None,
         'rr': str(c['rr']), 'rrc': '0', 'enh': str(c['rr']), 'em': str(c['em']), 'op': str(c['op']), 'll': str(c['ll']),
-        'hn': '-' if not c['host'] else c['host'].encode().hex() + ':' + c['dom'].encode().hex(),
+        # the capability carries at most 64 octets of each name (HostName.HOSTNAME_MAX_LEN, generated table
+        # `hostnameMaxLen`); the configuration grammar accepts up to 255: the rest is cut, which is noted
+        'hn': '-' if not c['host'] else c['host'].encode()[:64].hex() + ':' + c['dom'].encode()[:64].hex(),
         'sw': '-' if not c['sw'] else 'x' + negorig.software_string().hex(),
         'ms': str(c['ms']), 'msc': '0', 'unk': [],
     }  # fmt: skip
@@ -527,6 +570,8 @@ def build_cases(ctx: Ctx, n_random: int, first: bool) -> list[dict]:
                 continue
             groups = '/'.join(caps + pad)
             add(c, f'nego enc {fmt} {fixed[0]} {fixed[1]} {fixed[2]} {fixed[3]} {groups}', f'boundary-{target}-fmt{fmt}')
+    for c in extreme_cfgs(rng) if first else []:
+        add(c, 'nego enc a 4 4294967295 90 33686018 mp:1:1/mp:2:1/asn4:4294967295/em/rr'.replace(' 4294967295 90', ' 23456 90'), 'extreme-config')
     # UTF-8 edge cases in the strings of hostname / software version (invalid ones: the encoder's
     # well-formedness flag is 0 because of the string only; the TLV framing is still right)
     for seq in UTF8_TRICKY if first else rng.sample(UTF8_TRICKY, 8):
@@ -627,7 +672,7 @@ def run(ctx: Ctx) -> None:
     )
     total = 12000 if ctx.tier == 'quick' else 400000
     chunk = 4000
-    state: dict = {'seen': set(), 'wf_ours': [0, 0]}
+    state: dict = {'seen': set(), 'wf_ours': [0, 0, 0]}
     done_n = 0
     first = True
     while done_n < total:
@@ -637,7 +682,7 @@ def run(ctx: Ctx) -> None:
         run_chunk(ctx, build_cases(ctx, min(chunk, total - done_n), first), state)
         done_n += chunk
         first = False
-    ctx.extra['our_open_wellformed'] = f'{state["wf_ours"][0]}/{state["wf_ours"][1]} configurations have an OPEN with a wire form (wfOpen, the hypothesis of our_open_roundtrip)'
+    ctx.extra['our_open_wellformed'] = f'{state["wf_ours"][2]}/{state["wf_ours"][1]} distinct configurations accepted by the real code are in the closed-form class cfgOK (hypothesis of our_open_roundtrip); {state["wf_ours"][0]}/{state["wf_ours"][1]} have wfOpen'
 
 
 def run_chunk(ctx: Ctx, cases: list[dict], state: dict) -> None:
@@ -678,6 +723,20 @@ def run_chunk(ctx: Ctx, cases: list[dict], state: dict) -> None:
         if io.startswith('rig-crash'):
             ctx.disagreements.append(Disagreement('nego-rig', replay, None, io))
             continue
+        if io.startswith('config-refused'):
+            ctx.count('config:refused-by-the-real-code' + (' (one beyond a maximum)' if c.get('_beyond') else ''))
+            continue
+        if c.get('_beyond'):
+            ctx.count('config:beyond-maximum-accepted')
+        if io.startswith('open-crash'):
+            # the configuration was accepted but Capabilities.new / pack_message cannot build the OPEN
+            ok_flag = out[case['li'] + 2].split(' ')[-1][-1:] if out is not None else '?'
+            ctx.count('config:accepted-but-no-OPEN')
+            key = 'open-crash:' + io.split(':')[1]
+            if key not in seen:
+                seen.add(key)
+                ctx.failures.append(Failure('open-pair', {'field': 'our-open', 'class': 'accepted-configuration-has-no-OPEN:' + io.split(':')[1], 'cfgOK': ok_flag}, replay, f'the configuration is accepted ({impl["via"]}) but the OPEN cannot be built: {io}'))
+            continue
         if nontrivial_rule(io, impl.get('theirs_set')):
             ctx.nontrivial([c, body.hex()])
         ctx.sample({'cfg': impl['words'], 'peer_open': body.hex(), 'our_open': impl['ours'].hex(), 'result': io}, cap=4)
@@ -702,10 +761,21 @@ def run_chunk(ctx: Ctx, cases: list[dict], state: dict) -> None:
         if 'theirs_set' in impl and m_set != impl['theirs_set']:
             ctx.count('disagreement:set')
             ctx.disagreements.append(Disagreement('nego-set', replay, m_set, impl['theirs_set']))
-        m_our, m_wf = m_our.split(' ') if ' ' in m_our else (m_our, '?')
+        m_our, m_flags = m_our.split(' ') if ' ' in m_our else (m_our, '??')
+        m_wf, m_ok = m_flags[0], m_flags[1]
         if okey_new(seen, c):
+            if max(len(c['host']), len(c['dom'])) > 64:
+                ctx.count('config:name-longer-than-64-octets-advertised-cut')
+                if 'cut' not in seen:
+                    seen.add('cut')
+                    ctx.notes.append('a host-name / domain-name of 65..255 octets is accepted by the configuration grammar and advertised cut to its first 64 octets (HostName.HOSTNAME_MAX_LEN): the OPEN is valid, the name is not the configured one')
             state['wf_ours'][1] += 1
             state['wf_ours'][0] += int(m_wf == '1')
+            state['wf_ours'][2] += int(m_ok == '1')
+            ctx.count('config:cfgOK=' + m_ok + ' via ' + impl['via'])
+            if m_ok != '1':
+                # the real code accepted the configuration and built an OPEN, the closed-form class excludes it
+                ctx.disagreements.append(Disagreement('nego-cfgok', {'cfg': c}, 'cfgOK = false', 'configuration accepted, OPEN built: ' + impl['ours'].hex()[:80]))
         if m_our != (impl['ours'].hex() or '-'):
             ctx.count('disagreement:our')
             ctx.disagreements.append(Disagreement('nego-our', {'cfg': c}, m_our, impl['ours'].hex()))
@@ -723,7 +793,11 @@ def run_chunk(ctx: Ctx, cases: list[dict], state: dict) -> None:
                 want = expected_capset(impl['eff'])
                 if fixed != want_fixed or got != want:
                     diff = {k: (got.get(k), want.get(k)) for k in want if got.get(k) != want.get(k)}
-                    ctx.failures.append(Failure('open-pair', {'field': 'our-open', 'class': 'advertises-' + '+'.join(sorted(diff)) if diff else 'fixed-fields'}, replay, f'our OPEN does not advertise exactly the configuration: fixed {fixed} want {want_fixed}; (got, want) {diff}'))
+                    canon1 = {'field': 'our-open', 'class': 'advertises-' + '+'.join(sorted(diff)) if diff else 'fixed-fields'}
+                    ctx.count('oracle-fail:' + canon1['class'])
+                    if json.dumps(canon1, sort_keys=True) not in seen:
+                        seen.add(json.dumps(canon1, sort_keys=True))
+                        ctx.failures.append(Failure('open-pair', canon1, replay, f'our OPEN does not advertise exactly the configuration: fixed {fixed} want {want_fixed}; (got, want) {diff}'))
         fails = case_failures(c, body, io, m_rfc, impl.get('theirs_set'), case.get('expect_param'))
         if 'theirs_set' in impl:
             ctx.count('peer:' + ('consistent-as' if consistent_peer(impl['theirs_set']) else 'inconsistent-as'))
